@@ -5,7 +5,7 @@ from harness.oracles import all as ALL
 
 ID = 'C16'
 UNITS = ['seg_cluster_q', 'index_labels', 'seg_entropy_skel', 'seg_entropy_num']
-TRANSLATORS = ['scalarfuncs', 'wrapfuncs', 'wrapfuncs2']
+TRANSLATORS = ['scalarfuncs', 'wrapfuncs', 'wrapfuncs2', 'corefuncs']
 NOT_COVERED = ('the entropic scores (MI, NMI, AMI, NCE, V) are tied numerically INSIDE Coq (unit seg_entropy_num: |R formula - float| <= 1e-9, AMI 1e-7, '
                'by the interval tactic, kernel-checked) on sampled tables only; the frame grid off dyadic frame sizes')
 ASSUMPTIONS = ['util.intervals_to_samples yields the frames the harness constructs (checked per case); scipy sparse contingency as modelled']
